@@ -285,16 +285,29 @@ def run_real(cfg, ops, bell=0, bells=None, schedule="lazy"):
                 released = vid
             elif k == "keep":
                 (sock.recv_keep if op["recv"] else sock.create_keep)(number=op["n"])
+                conn.goodness_plan.append(FAST)
+            elif k == "keepr":
+                (sock.recv_keep if op["recv"] else sock.create_keep)(
+                    number=op["n"], min_fidelity_all_at_end=80, max_tries=op["tries"])
+                conn.goodness_plan += [SLOW] * min(op["fails"], op["tries"]) + ([FAST] if op["fails"] < op["tries"] else [])
+            elif k == "seqr":
+                f = body_fn(op["body"])
+                (sock.recv_keep if op["recv"] else sock.create_keep)(
+                    number=op["n"], sequential=True, post_routine=lambda c, q, pair: f(q),
+                    min_fidelity_all_at_end=80, max_tries=op["tries"])
+                conn.goodness_plan += [SLOW] * min(op["fails"], op["tries"]) + ([FAST] if op["fails"] < op["tries"] else [])
             elif k == "seq":
                 f = body_fn(op["body"])
                 (sock.recv_keep if op["recv"] else sock.create_keep)(
                     number=op["n"], sequential=True, post_routine=lambda c, q, pair: f(q))
+                conn.goodness_plan.append(FAST)
             elif k == "ctx":
                 f = body_fn(op["body"])
                 cm = (sock.recv_context if op["recv"] else sock.create_context)(
                     number=op["n"], sequential=op["sequential"])
                 with cm as (q, pair):
                     f(q)
+                conn.goodness_plan.append(FAST)
             elif k == "flush":
                 conn.flush()
             elif k == "close":
@@ -303,8 +316,9 @@ def run_real(cfg, ops, bell=0, bells=None, schedule="lazy"):
                 raise KeyError(k)
         except QubitNotActiveError:
             r = "notactive"
-        except AssertionError:
-            r = "assertion"
+        except AssertionError as e:
+            # (inside the retry-loop block the loop's own `finally:` assertion masks a ValueError)
+            r = "valueerror" if isinstance(e.__context__, ValueError) else "assertion"
         except UnboundLocalError as e:
             # create_context/recv_context: the `finally:` clause runs after the AssertionError of
             # `_create_ent_qubits` and trips over its own unbound locals
@@ -318,7 +332,7 @@ def run_real(cfg, ops, bell=0, bells=None, schedule="lazy"):
         except Exception as e:  # noqa: BLE001
             if k in ("flush", "close"):
                 r = classify_fault(e)
-            elif isinstance(e, ValueError) and k in ("keep", "seq", "ctx"):
+            elif isinstance(e, ValueError) and k in ("keep", "seq", "ctx", "keepr", "seqr"):
                 r = "valueerror"
             else:
                 r = "error:" + type(e).__name__ + ":" + str(e)[:80]
@@ -368,7 +382,7 @@ def created(op):
     k = op["k"]
     if k == "new":
         return 1
-    if k in ("keep", "seq", "ctx"):
+    if k in ("keep", "seq", "ctx", "keepr", "seqr"):
         return op["n"]
     return 0
 
@@ -406,10 +420,17 @@ def analyse(cfg, ops):
                 wf = False
             elif alive[op["h"]]:
                 alive[op["h"]] = False
-        elif k == "keep":
+        elif k in ("keep", "keepr"):
             if op["n"] > cfg["maxq"]:
+                if k == "keepr":
+                    wf = False  # the argument check fires inside the retry loop block
                 continue  # rejected by the SDK, nothing happens
+            if k == "keepr" and op["fails"] >= op["tries"]:
+                wf = False  # the request never succeeds: the returned handles are void
             alive.extend([True] * op["n"])
+        elif k == "seqr":
+            peak = max(peak, cnt() + 1)
+            alive.extend([False] * op["n"])
         elif k in ("seq", "ctx"):
             if k == "ctx" and not op["sequential"] and op["n"] > cfg["maxq"]:
                 continue
@@ -479,9 +500,9 @@ def random_ops(rng, cfg, length, loops=True, over_budget=False):
         room = limit - len(lv)
         choices = ["flush"] * 2
         if room >= 1:
-            choices += ["new"] * 4 + ["keep"] * 2
+            choices += ["new"] * 4 + ["keep"] * 2 + ["keepr"]
             if loops:
-                choices += ["seq", "ctx"]
+                choices += ["seq", "ctx", "seqr"]
         if lv:
             choices += ["gate"] * 2 + ["measd"] * 3 + ["measi", "free", "free"]
         if len(lv) >= 2:
@@ -510,6 +531,19 @@ def random_ops(rng, cfg, length, loops=True, over_budget=False):
             n = rng.randint(1, max(1, min(room, 3)))
             ops.append({"k": "keep", "recv": rng.random() < 0.5, "n": n})
             alive.extend([True] * n)
+        elif k == "keepr":
+            n = min(cfg["maxq"], rng.randint(1, max(1, min(room, 3))))
+            tries = rng.randint(1, 3)
+            ops.append({"k": "keepr", "recv": rng.random() < 0.5, "n": n, "tries": tries,
+                        "fails": rng.randrange(tries)})
+            alive.extend([True] * n)
+        elif k == "seqr":
+            n = rng.randint(1, 3)
+            tries = rng.randint(1, 3)
+            ops.append({"k": "seqr", "recv": rng.random() < 0.5, "n": n, "tries": tries,
+                        "fails": rng.randrange(tries),
+                        "body": {"g": rng.randrange(3), "c": rng.choice(["meas", "free"])}})
+            alive.extend([False] * n)
         elif k == "seq":
             n = rng.randint(1, 3)
             ops.append({"k": "seq", "recv": rng.random() < 0.5, "n": n,
